@@ -520,6 +520,25 @@ Fixpoint anchors_scan (n : cnode) (seen : list string) {struct n} : option (list
          end) es seen'
   end.
 
+(* the alias-free fragment: no AliasNode anywhere (anchors may be present) *)
+Fixpoint alias_free (n : cnode) : bool :=
+  match n with
+  | CScalar _ _ => true
+  | CAlias _ _ => false
+  | CMap _ kvs =>
+      (fix go (l : list (cnode * cnode)) : bool :=
+         match l with
+         | [] => true
+         | kv :: t => alias_free (fst kv) && alias_free (snd kv) && go t
+         end) kvs
+  | CSeq _ es =>
+      (fix go (l : list cnode) : bool :=
+         match l with
+         | [] => true
+         | e :: t => alias_free e && go t
+         end) es
+  end.
+
 Definition anchors_ok (n : cnode) : bool :=
   match anchors_scan n [] with Some _ => true | None => false end.
 
